@@ -246,10 +246,14 @@ def _load():
                      "runs generated swarm-style from sub(VERIF_SEED,'C01',tier,i); distinct = distinct history digest "
                      "(events+micro-events+samples+draws+records); non-trivial = >=1 transfer between service nodes and >=1 exit",
                      B(40000, 500000)))
-    register(Profile("C02", [C02], [(2, wide), (1, faulty)],
+    # a custom service discipline that lets customers linger beside a free server (valid use of the documented hook): waiting
+    # customers exist while servers are free, which the built-in disciplines never produce
+    LINGER = dict(disc=0.6, disc_opts=["FIFO", "LIFO", "SIRO", "LINGER", "LINGER"])
+    register(Profile("C02", [C02], [(4, wide), (2, faulty), (1, dict(wide, renege=0.7, **LINGER))],
                      "distinct history digest; non-trivial = >=1 tie (two consecutive events at one date) and records of >=2 types",
                      B(40000, 500000)))
-    register(Profile("C14", [C14], [(2, wide), (1, faulty), (1, dict(wide, np_samples=0.5, exact=0.0)), (1, profile(plan={"time": 0.4, "cust": 0.6, "deadlock": 0.0}))],
+    register(Profile("C14", [C14], [(2, wide), (1, faulty), (1, dict(wide, np_samples=0.5, exact=0.0)), (1, profile(plan={"time": 0.4, "cust": 0.6, "deadlock": 0.0})),
+                                     (1, dict(wide, **LINGER))],
                      "distinct history digest; non-trivial = >=2 optional features enabled and >=10 events executed",
                      B(60000, 800000)))
 
@@ -284,7 +288,8 @@ def _load():
                      "distinct history digest; non-trivial = >=1 routing decision checked (per-router-kind and unequal-queue JSQ/LB decision counters reported)",
                      B(40000, 400000)))
     samp = profile(preempt=0.0, sched_pre_opts=[False], np_samples=0.15, sdep=0.3, tdep=0.5, batch=0.5, exact=0.15, n=[1, 2, 2, 3], slot=0.1, ps=0.05)
-    register(Profile("C10", [C10, Ref], [(1, core), (3, samp), (1, dict(samp, f_bad=1.0)), (1, dict(kfa, tdep=0.5, batch=0.5))],
+    register(Profile("C10", [C10, Ref], [(2, core), (6, samp), (2, dict(samp, f_bad=1.0)), (2, dict(kfa, tdep=0.5, batch=0.5)),
+                                         (1, dict(samp, k=[2, 2, 3], disc=0.8, disc_opts=["FIFO", "LINGER", "LINGER"]))],
                      "distinct history digest; non-trivial = >=3 arrivals on one stream and >=1 completed service audited against its sample "
                      "(F5 sub-profile: one invalid sample planted per run; counters F5:planted/served/raised reported)",
                      B(40000, 400000), post=plant_bad_sample))
